@@ -38,12 +38,15 @@ def check(run, prog, tier):
     run.rule("C12-B", "isotropic rank-four average: M4, matchings, prefactor", minimum=8)
     run.rule("C12-C", "every orientational factor is a product of two scalar products over the four vectors", minimum=6)
     run.rule("C12-D", "signal and process tables partition the pathway types", minimum=4)
+    run.rule("C12-F", "transition dephasing is the transition width formula with the dephasing matrix (sibling "
+                      "agreement of the two line-shape look-ups)", minimum=4)
     run.rule("C12-E", "every generated pathway is a well-formed double-sided diagram and takes its line shapes from "
                       "the coherence it is in (symbolic diagram tracking)", minimum=12)
     rule_A(run, prog)
     Fe, Fd = rule_B(run, prog)
     rule_C(run, prog, Fe, Fd)
     rule_E(run, prog)
+    rule_F(run, prog)
     m = prog.module("quantarhei.spectroscopy.twod2")
 
     class Proxy:
@@ -56,6 +59,43 @@ def check(run, prog, tier):
         def __getattr__(self, name):
             return getattr(self.run, name)
     c19.rule_A(Proxy(run), prog, m)
+
+
+def rule_F(run, prog):
+    """get_transition_width((f, i)) and get_transition_dephasing((f, i)) feed the Gaussian and the
+    Lorentzian line shape of the same pathway.  Both simulate g_ff + g_ii - 2 Re g_fi from a matrix of
+    square roots (Wd, Dr); the cancellation of excited-state absorption against the other pathways for
+    uncoupled molecules needs the same combination in both.  Branch by branch (band of the initial and
+    final state) the returned expressions must be equal after renaming Wd -> Dr."""
+    rid = "C12-F"
+    AB_ = "quantarhei.builders.aggregate_base.AggregateBase."
+    w = prog.func(AB_ + "get_transition_width")
+    d = prog.func(AB_ + "get_transition_dephasing")
+
+    def branches(f, mat):
+        out = {}
+        for n in ast.walk(f.node):
+            if isinstance(n, ast.If) and "self.which_band[eli]" in norm(n.test) and "self.which_band[elf]" in norm(n.test):
+                key = norm(n.test)
+                val = None
+                binds = {norm(s_.targets[0]): s_.value for s_ in n.body if isinstance(s_, ast.Assign)}
+                for s_ in n.body:
+                    if isinstance(s_, ast.Return) and s_.value is not None:
+                        v = s_.value
+                        if isinstance(v, ast.Name) and v.id in binds:
+                            v = binds[v.id]
+                        val = norm(v).replace("self.%s" % mat, "self.M")
+                if val is not None:
+                    out[key] = val
+        return out
+    bw, bd = branches(w, "Wd"), branches(d, "Dr")
+    if len(bw) < 4 or set(bw) != set(bd):
+        raise AnalysisError("line-shape look-ups: band branches differ or not found: %s vs %s" % (sorted(bw), sorted(bd)))
+    for key in sorted(bw):
+        run.obligation(rid, "AggregateBase.get_transition_dephasing", bw[key] == bd[key], key="branch:" + key[:70],
+                       message="for %s the dephasing is %s while the width is %s (M = matrix of square roots): the two "
+                               "line shapes of one pathway are built from different combinations" % (key, bd[key], bw[key]),
+                       loc=d.loc(), sample={"branch": key, "width": bw[key]})
 
 
 def rule_E(run, prog):
